@@ -57,6 +57,7 @@ Inductive kind :=
 | KSlot (svc : nat) (rollout_slot : bool) (lb : nat) (replaced : option nat)
 | KInstall (svc : nat) (ok : bool)
 | KRemoved (svc : nat)
+| KRestored (svc : nat) (active rollout : option nat)   (* RestoreLastSavedState put a service object read from the state file into the table *)
 | KRolloutSet (svc : nat)
 | KRolloutStop (svc : nat)
 | KPick (r svc : nat) (lb : option nat)
